@@ -10,7 +10,7 @@ import re
 
 from ..extract import AnalysisError, VERIF
 from ..facts import walk, strip, callee
-from ..symx import SymEval, Poly, Unsupported, app, var, num, subst
+from ..symx import SymEval, Poly, Unsupported, app, var, num, subst, single_atom, atom_fn, atom_args
 from ..trace import Tracer
 from .. import staircase
 
@@ -39,11 +39,12 @@ REF = os.path.join(VERIF, "reference", "dvbs2_tables.json")
 
 
 def const_eval(F, fn, variant):
-    ev = SymEval(F, mode="int", inline=lambda p: F.bodies.get(p) if p and p.startswith(ENUM + "::") else None, max_depth=8)
+    # every function of the codes::dvbs2 module may take part in the constant computation (helper const fns on Code or on FrameLen ..)
+    ev = SymEval(F, mode="int", inline=lambda p: F.bodies.get(p) if p and p.startswith("codes::dvbs2::") else None, max_depth=8)
     body = F.body("%s::%s" % (ENUM, fn))
     env = {}
     ev.bind(body.params[0], ("variant", variant), env)
-    return ev.eval(body.value, env)
+    return ev.eval_fn(body, env)
 
 
 def to_int(v):
@@ -173,7 +174,7 @@ def run(ck, F, tier):
     # ---- T4: expansion shape -------------------------------------------------
     hb = F.body(ENUM + "::h")
     # private non-const helpers of Code (e.g. an extracted "write the staircase" method) are expanded; the pub const accessors stay symbolic
-    tr = Tracer(F, r"sparse::SparseMatrix::\w+", mode="int", inline=lambda p: F.private_helper(p, ENUM + "::"))
+    tr = Tracer(F, r"sparse::SparseMatrix::\w+", mode="int", inline=lambda p: F.private_helper(p, "codes::dvbs2::"))
     env = {}
     tr.bind(hb.params[0], var("self"), env)
     try:
@@ -185,70 +186,123 @@ def run(ck, F, tier):
     ADDR = app(ENUM + "::addresses", S)
     L0, X = var("L0"), var("x")
     found = {"new": [], "info": [], "parity": [], "other": []}
+    from ..symx import replace_atom, canon_cond
     for ev in tr.events:
         base = ev.callee.rsplit("::", 1)[-1]
-        loops, f = canon_loops(ev)
-        args = [subst(a, f) if not (isinstance(a, tuple) and a and a[0] == "iterdesc") else a for a in ev.args]
         if base == "new":
-            found["new"].append((ev, args))
-        elif base == "insert_col" and len(ev.loops) == 1:
-            it = args[2]
+            found["new"].append((ev, list(ev.args)))
+        elif base == "insert_col":
+            it = ev.args[2]
             if isinstance(it, tuple) and it and it[0] == "iterdesc":
                 try:
-                    el = subst(tr.elem_value(it[1], "x"), f)
+                    el = tr.elem_value(it[1], "x")
                 except Unsupported as e:
                     raise AnalysisError("Code::h: cannot evaluate the row iterator: %s" % e)
-                found["info"].append((ev, loops, el, args[1]))
+                found["info"].append((ev, el, ev.args[1]))
             else:
                 found["other"].append(ev)
         elif base == "insert":
-            if len(ev.loops) == 2:
-                found["info"].append((ev, loops, args[1], args[2]))
+            d = ev.args[2] - K - ev.args[1] if isinstance(ev.args[1], Poly) and isinstance(ev.args[2], Poly) else None
+            if d is not None and d.const_value() is not None:
+                found["parity"].append((ev, ev.args[1], ev.args[2], int(d.const_value())))
             else:
-                found["parity"].append((ev, loops, args[1], args[2]))
+                found["info"].append((ev, ev.args[1], ev.args[2]))
         elif base in ("num_rows", "num_cols"):
             pass
         elif ev.callee.startswith("<"):
-            if ev.callee != "<break>":
+            if ev.callee not in ("<break>", "<apply>"):
                 found["other"].append(ev)
         else:
             found["other"].append(ev)
     ok_new = len(found["new"]) == 1 and found["new"][0][1] == [M, N]
     ck.inst("T4", "h:new(m,n)", ok_new, hb.span, "matrix allocated as SparseMatrix::new(%s)" % (
         ", ".join(repr(a) for a in found["new"][0][1]) if found["new"] else "?"))
-    exp_elem = app("elem", app("index", ADDR, app("idiv", L0, num(360))), X)
-    exp_row = app("mod", exp_elem + app("mod", L0, num(360)) * Q, M)
+    # information part, in group/offset coordinates: column 360*g + o receives the rows (x + o*q) mod m for x in addresses[g],
+    # for every group g of the table and every o in 0..360 (one loop over 0..k with j/360, j%360, or a loop nest over groups and offsets)
+    G, O = var("g"), var("o")
     info_ok = len(found["info"]) == 1
-    reason = "no insert_col/insert found for the information part"
+    reason = "expected exactly one write site for the information part (found %d)" % len(found["info"])
     if info_ok:
-        ev, loops, row, col = found["info"][0]
-        info_ok = loops[:1] == [("range", num(0), K, False)] and row == exp_row and col == L0
-        reason = "for L0 in %r..%r: column %r <- rows %r ; required for L0 in 0..k: column L0 <- rows %r" % (
-            loops[0][1] if loops and loops[0][0] == "range" else "?", loops[0][2] if loops and loops[0][0] == "range" else "?",
-            col, row, exp_row)
+        ev, row, col = found["info"][0]
+        rng = [l for l in ev.loops if l[0] == "range"]
+        enum = [l for l in ev.loops if l[0] == "enumerate"]
+        dom_ok = False
+        if len(ev.loops) == 1 and len(rng) == 1 and rng[0][2] == num(0) and rng[0][3] == K and not rng[0][4]:
+            j = single_atom(var(rng[0][1]))
+            sub = lambda v: replace_atom(replace_atom(replace_atom(v, single_atom(app("idiv", var(rng[0][1]), num(360))), G),
+                                                      single_atom(app("mod", var(rng[0][1]), num(360))), O), j, num(360) * G + O)
+            row, col = sub(row), sub(col)
+            row = replace_atom(row, single_atom(app("index", ADDR, G)), var("ROWG"))
+            dom_ok = True       # g in 0..k/360 (T2: the table has k/360 rows), o in 0..360
+        elif len(ev.loops) == 2 and len(rng) == 1 and len(enum) == 1 and enum[0][2] in (("elems", ADDR), ("elems", ("P", ADDR))) \
+                and rng[0][2] == num(0) and rng[0][3] == num(360) and not rng[0][4]:
+            row = replace_atom(replace_atom(row, single_atom(var(enum[0][1])), G), single_atom(var(rng[0][1])), O)
+            col = replace_atom(replace_atom(col, single_atom(var(enum[0][1])), G), single_atom(var(rng[0][1])), O)
+            row = replace_atom(row, single_atom(app("elem", ADDR, var(enum[0][3]))), var("ROWG"))
+            dom_ok = True       # g over every row of the table, o in 0..360
+        exp_row = app("mod", app("elem", var("ROWG"), X) + O * Q, M)
+        info_ok = dom_ok and not ev.guards and row == exp_row and col == num(360) * G + O
+        reason = "column %r <- rows %r for every group g and offset o in 0..360 ; required column 360 g + o <- rows (x + o q) mod m, x in addresses[g]" % (col, row)
     ck.inst("T4", "h:information-part", info_ok, found["info"][0][0].site if found["info"] else hb.span, reason)
-    par = set()
-    for ev, loops, row, col in found["parity"]:
-        par.add((tuple(repr(l) for l in loops), repr(row), repr(col)))
-    lp = (repr(("range", num(1), M, False)),)
-    exp_par = {((), repr(num(0)), repr(K)), (lp, repr(L0), repr(L0 + K)), (lp, repr(L0), repr(L0 + K - num(1)))}
-    ck.inst("T4", "h:parity-part", par == exp_par and len(found["parity"]) == 3,
-            found["parity"][0][0].site if found["parity"] else hb.span,
-            "parity inserts %s ; required %s" % (sorted(par), sorted(exp_par)))
+
+    # parity part: entries (r, k + r + d) with d = 0 for the rows 0..m and d = -1 for the rows 1..m, each exactly once
+    def rows_of(ev, row):
+        """half-open interval of rows an insert event covers, path conditions on the row folded in"""
+        ra = single_atom(row) if isinstance(row, Poly) else None
+        c = row.const_value() if isinstance(row, Poly) else None
+        if c is not None and not ev.loops:
+            return (row, row + num(1))
+        rl = [l for l in ev.loops if l[0] == "range" and ra is not None and ra[0] == "v" and l[1] == ra[1]]
+        if len(ev.loops) != 1 or not rl:
+            return None
+        lo, hi = rl[0][2], rl[0][3] + (num(1) if rl[0][4] else num(0))
+        for g, pol in ev.guards:
+            cg, pg = canon_cond(g, pol, total=True)
+            ga = single_atom(cg) if isinstance(cg, Poly) else None
+            if ga and atom_fn(ga) == "lt" and pg and atom_args(ga)[1] == row and atom_args(ga)[0].const_value() is not None:
+                lo2 = atom_args(ga)[0] + num(1)         # c < r
+                lo = lo2 if (lo.const_value() is not None and lo2.const_value() > lo.const_value()) else lo
+            elif ga and atom_fn(ga) == "eq" and not pg and row in atom_args(ga) and num(0) in atom_args(ga) and lo == num(0):
+                lo = num(1)                              # r != 0
+            else:
+                return None
+        return (lo, hi)
+
+    def tiles(ivs, start, end):
+        ivs = list(ivs)
+        cur = start
+        while ivs:
+            nxt = [iv for iv in ivs if iv[0] == cur]
+            if len(nxt) != 1:
+                return False
+            ivs.remove(nxt[0])
+            cur = nxt[0][1]
+        return cur == end
+    cover = {0: [], -1: []}
+    par_bad = []
+    for ev, row, col, d in found["parity"]:
+        iv = rows_of(ev, row)
+        if d not in cover or iv is None:
+            par_bad.append((repr(row), repr(col)))
+        else:
+            cover[d].append(iv)
+    par_ok = not par_bad and tiles(cover[0], num(0), M) and tiles(cover[-1], num(1), M)
+    ck.inst("T4", "h:parity-part", par_ok, found["parity"][0][0].site if found["parity"] else hb.span,
+            "diagonal (r, k+r) written for rows %s, sub-diagonal (r, k+r-1) for rows %s%s ; required 0..m and 1..m, each once" % (
+                [(repr(a_), repr(b_)) for a_, b_ in cover[0]], [(repr(a_), repr(b_)) for a_, b_ in cover[-1]], " ; unreadable: %s" % par_bad if par_bad else ""))
     ck.inst("T4", "h:no-other-writes", not found["other"], found["other"][0].site if found["other"] else hb.span,
             "no other matrix mutation or early exit in Code::h" if not found["other"] else "unexpected %s" % found["other"][0].callee)
     from ..panics import unwrap_mut
     ck.inst("T4", "h:returns-h", isinstance(ret, Poly) and unwrap_mut(ret) == app("sparse::SparseMatrix::new", M, N), hb.span,
             "the matrix built is the value returned")
-    ck.floor("T4", "matrix writes in Code::h", len(found["info"]) + len(found["parity"]), 4)
+    ck.floor("T4", "matrix writes in Code::h", len(found["info"]) + len(found["parity"]), 3)
 
     # ---- T5: staircase agreement -----------------------------------------------
     acc = staircase.accepted_set(F)
-    # writer in terms of D = (cols - rows) = n - m = k
-    written_first = {col - K for ev, loops, row, col in found["parity"] if not loops and row == num(0)}
-    written_rest = {subst(col - K, lambda nm: var("j") if nm == "L0" else None) for ev, loops, row, col in found["parity"] if loops and row == L0}
-    lo_ok = all(loops[0][1] == num(1) and loops[0][2] == M for ev, loops, row, col in found["parity"] if loops)
-    ok5 = (written_first == acc["first"] and written_rest == acc["rest"] and lo_ok and acc["count_ok"])
+    # writer in terms of D = (cols - rows) = n - m = k: offsets (col - k) per row
+    written_first = {num(d) for d in cover if any(iv[0] == num(0) for iv in cover[d])}
+    written_rest = {var("j") + num(d) for d in cover if any(iv[1] == M for iv in cover[d])}
+    ok5 = (par_ok and written_first == acc["first"] and written_rest == acc["rest"] and acc["count_ok"])
     ck.inst("T5", "staircase-agreement", ok5, hb.span,
             "writer: row 0 -> offsets %s, row j in 1..m -> offsets %s (relative to column k = n-m); is_staircase accepts row 0 -> %s, "
             "row j!=0 -> %s and requires 2*rows-1 ones (%s)" % (sorted(map(repr, written_first)), sorted(map(repr, written_rest)), sorted(map(repr, acc["first"])),
